@@ -779,3 +779,7 @@ def r7(cx):
         for sb, st in b.calls():
             if Q.callee_is(st, INDEXED) and any(Q.operand_local(a) in tainted for a in st['a'][1:] if Q.operand_local(a) is not None):
                 cx.violation(b.root, 'job-count-as-index', 'the number of jobs is used as a job index', loc=b.loc(st))
+
+
+# --- explanation addendum (generated catalogue in DESIGN.md reads RS.explanation)
+RS.explanation += ' Added later: the wait layers return only halted / terminated children (R8); command substitution drains the pipe before waiting (R9).'
